@@ -63,7 +63,7 @@ class FS:
         return f"{self.name}:{self.tag()}" + (f"={self.alias}" if self.alias else "")
 
 
-STYLES = ("raise", "raise_children", "yield", "yield2", "yield_alias", "yield_astr", "yield_raw", "yield_index", "yield_multi", "yield_empty")
+STYLES = ("raise", "raise_children", "yield", "yield2", "yield_alias", "yield_astr", "yield_raw", "yield_index", "yield_multi", "yield_empty", "yield_path2")
 ACCESS = ("direct", "helper", "prop", "helper2")
 
 
@@ -219,6 +219,7 @@ def _fail_stmts(v: VS, s: str) -> List[str]:
         "yield_index": [f'yield ({ga}, 2), "{n}@2"'],
         "yield_multi": [f'yield "{n}!"', f'yield ({ga}, 0), "{n}@0"', f'yield ({ga}, 1), "{n}@1"', f'yield (), "{n}!!"'],
         "yield_empty": [f'yield (), "{n}!"'],
+        "yield_path2": [f'yield ({ga}, AliasedStr("some_key")), "{n}@@"', f'yield ("raw", 1, {ga}), "{n}@@@"'],
     }[v.style]
 
 
@@ -239,6 +240,7 @@ def validator_errors(t: TS, v: VS, ext: Callable[[str], str], dyn: Callable[[str
         "yield_index": [(a + (2,), f"{n}@2")],
         "yield_multi": [((), f"{n}!"), (a + (0,), f"{n}@0"), (a + (1,), f"{n}@1"), ((), f"{n}!!")],
         "yield_empty": [((), f"{n}!")],
+        "yield_path2": [(a + (dyn("some_key"),), f"{n}@@"), (("raw", 1) + a, f"{n}@@@")],
     }[v.style]
     if v.field is not None:
         errs = [((ext(v.field),) + loc, msg) for loc, msg in errs]
@@ -348,6 +350,7 @@ class Expect:
     values: Dict[str, Any]
     why_not: Dict[str, str]  # validator name -> reason it must not run
     invalid_tags: List[str]
+    invalid_names: set
 
 
 def ext_of(t: TS, dyn: Callable[[str], str]) -> Callable[[str], str]:
@@ -422,7 +425,7 @@ def reference(t: TS, order: List[VS], status: Dict[str, str], fails: Dict[str, b
             if fails[v.name]:
                 errs += validator_errors(t, v, ext, dyn)
                 discarded |= set(v.discards())
-    return Expect(run, errs, structural, values, why, sorted(t.f(n).tag() for n in invalid))
+    return Expect(run, errs, structural, values, why, sorted(t.f(n).tag() for n in invalid), set(invalid))
 
 
 def mixed_keys(errs: List[Tuple[tuple, str]]) -> bool:
@@ -485,7 +488,7 @@ def _mk_validator(t_fields: Tuple[FS, ...], name: str, deps: Tuple[str, ...], wh
     elif decl == "field_discard_other" and nonflat and others:
         fld, discard = nonflat[0], (others[-1],)
     target = None
-    if style in ("yield_alias", "yield_index", "yield_multi"):
+    if style in ("yield_alias", "yield_index", "yield_multi", "yield_path2"):
         cands = [f.name for f in t_fields if f.kind != "flat" and (where != "base" or f.in_base or not inherit)]
         if cands:
             target = cands[(len(name) + len(deps) + int(name[1:])) % len(cands)]
@@ -694,6 +697,9 @@ def _run_type(log, rt, t: TS, cls, optname: str, rng: random.Random, deserializa
         for oname, order in cand:
             failures[oname] += _judge(t, order, status, fails, dyn, extra, got, calls, built, optname, datum)
     best = min(failures, key=lambda k: len(failures[k]))
+    if len(cand) > 1 and len({len(v) for v in failures.values()}) > 1:
+        conv = log.stats.setdefault("block_order_explaining_all_cases", {})
+        conv[best] = conv.get(best, 0) + 1
     per_kind: Dict[str, int] = {}
     for sig, summary, case, obs, exp in failures[best]:
         # at most 3 failing cases per (type, aliaser, kind of failure): more add no information
@@ -717,12 +723,21 @@ def _judge(t: TS, order, status, fails, dyn, extra, got, calls, built, optname, 
         out.append((f"{kind}:{tail}", f"{kind}: {where}: {summary}", case, obs, ex))
 
     if got[0] == "crash":
-        if got[1].startswith("errors not computable") and mixed_keys(exp.errors):
+        ext = ext_of(t, dyn)
+        potential = list(exp.errors)
+        for v in t.validators:
+            if fails[v.name]:
+                potential += validator_errors(t, v, ext, dyn)
+        if got[1].startswith("errors not computable") and mixed_keys(potential):
             # the generated validators yield an index and a name under the same location: the
             # listing of such an error is undefined (keys not comparable), nothing to compare
             return out
         kind = "non-termination" if got[1] in ("RecursionError", "Runaway") else "crash"
-        cause = "required-initvar-invalid" if any(x.startswith("initvar/req") for x in exp.invalid_tags) else "-"
+        # diagnosis used in the signature: an InitVar field whose Python name is / is not among the
+        # keys of the structural errors although the field itself is not / is invalid
+        error_keys = {ext(n) for n in exp.invalid_names}
+        confused = [f.name for f in t.fields if f.kind == "initvar" and ((f.name in error_keys) != (f.name in exp.invalid_names))]
+        cause = "initvar-name-alias-confusion" if confused else "-"
         add(f"{kind}:{got[1]}:{cause}", f"{got[1]} escaped instead of one merged ValidationError (invalid fields: {exp.invalid_tags})", repr(got), repr(("err", sorted(exp.errors, key=repr)) if exp.errors else "ok"))
         return out
     got_names = [c[0] for c in calls]
